@@ -483,6 +483,34 @@ impl Tok {
     }
 }
 
+impl Tok {
+    /// A value created by an operator of the `&a + &b` kind during the current operation.
+    pub fn made_by_operator(val: u32) -> Tok {
+        let id = with(|l| {
+            let id = l.on_new(val, OWN_FRESH, Origin::Clone);
+            l.fresh_in_op.push(id);
+            id
+        });
+        Tok {
+            id,
+            val,
+            #[cfg(miri)]
+            heap: Box::new(id),
+        }
+    }
+}
+impl Plain {
+    pub fn made_by_operator(val: u32) -> Plain {
+        let id = with(|l| {
+            let id = l.on_new(val, OWN_FRESH, Origin::Clone);
+            l.recs[id as usize].nodrop = true;
+            l.fresh_in_op.push(id);
+            id
+        });
+        Plain { id, val }
+    }
+}
+
 pub const DEFAULT_VAL: u32 = 0x00DE_FA17;
 
 impl Default for Tok {
